@@ -26,6 +26,10 @@
 // (region comparison) and <= 4 for the vertex-exact ones.  A state whose check fails is reported
 // and not expanded; the failure class carries the operation signature and a diagnosis
 // ("as-if+..." = the observed outline equals the model's with that single convention changed).
+// "ang.<object>" searches sweep the right-angle family through every entry point that takes an
+// angle (rotate about a centre, transform with/without reflection and magnification): the exact
+// doubles k*(M_PI/2), k=-5..5, their one-ulp neighbours and the angles 1e-9 away, with a few
+// companions for sequences of two.  The model is the plain affine map with cos/sin of the given angle.
 // When scale_width is false the reference object is built with widths divided by the accumulated
 // scale, so that M * outline(reference) has unscaled widths and scaled offsets (property text:
 // "path widths scale only when width scaling is enabled while offsets always do").
@@ -114,7 +118,35 @@ static Mat op_matrix(const Op& o) {
     }
     return m;
 }
+// Angle alphabet of the "ang.*" sweeps: the exact doubles k*(M_PI/2), k = -5..5 (and -M_PI/2 spelled
+// directly), each with its two neighbours one ulp away and the two angles 1e-9 away.
+struct AngleInfo { double a; std::string label; int k; int nb; };  // nb: 0 exact, 1 = +-1ulp, 2 = +-1e-9
+static std::vector<AngleInfo> right_angle_set() {
+    std::vector<AngleInfo> out;
+    auto add = [&](double a, const std::string& l, int k, int nb) {
+        for (auto& x : out) if (memcmp(&x.a, &a, sizeof a) == 0) return;
+        out.push_back({a, l, k, nb});
+    };
+    for (int k = -5; k <= 5; k++) {
+        double b = k * (M_PI / 2);
+        std::string l = fmt("%d*(pi/2)", k);
+        add(b, l, k, 0);
+        if (k == -1) add(-M_PI / 2, "-pi/2", k, 0);  // same bits as -1*(M_PI/2): kept for the record, de-duplicated
+        add(nextafter(b, INFINITY), l + "+1ulp", k, 1);
+        add(nextafter(b, -INFINITY), l + "-1ulp", k, 1);
+        add(b + 1e-9, l + "+1e-9", k, 2);
+        add(b - 1e-9, l + "-1e-9", k, 2);
+    }
+    return out;
+}
+static const AngleInfo* angle_info(double a) {
+    static std::vector<AngleInfo> set = right_angle_set();
+    for (auto& x : set) if (memcmp(&x.a, &a, sizeof a) == 0) return &x;
+    return NULL;
+}
+static bool ANGLE_LABELS = false;  // set while the sweep alphabets are built
 static std::string num(double v) {
+    if (ANGLE_LABELS) { const AngleInfo* ai = angle_info(v); if (ai) return ai->label; }
     if (v == M_PI / 2) return "pi/2";
     return fmt("%g", v);
 }
@@ -161,6 +193,45 @@ static std::vector<Op> repetition_alphabet() {
         o.name = fmt("transform(m=%g, refl=%d, rot=", m, refl ? 1 : 0) + num(rot) + ")";
         a.push_back(o);
     }
+    return a;
+}
+
+// Sweeps over the right-angle family for every entry point that takes an angle, plus a few
+// companions so that sequences of two mix them with scaling / reflection / generic rotation.
+static std::vector<Op> angle_geom_alphabet() {
+    ANGLE_LABELS = true;
+    std::vector<Op> a;
+    for (auto& ai : right_angle_set()) {
+        a.push_back(mk_rotate(ai.a, Vec2{1, 2}));
+        a.push_back(mk_transform(1, false, ai.a, Vec2{3, -2}));
+        a.push_back(mk_transform(2, true, ai.a, Vec2{3, -2}));
+    }
+    ANGLE_LABELS = false;
+    a.push_back(mk_translate(Vec2{2, -1}));
+    a.push_back(mk_scale(2, 2, Vec2{1, 2}));
+    a.push_back(mk_scale(-1, -1, Vec2{0, 0}));
+    a.push_back(mk_mirror(Vec2{1, 0}, Vec2{3, 1}, "line (1,0)-(3,1)"));
+    a.push_back(mk_rotate(0.6, Vec2{0, 0}));
+    return a;
+}
+static std::vector<Op> angle_placement_alphabet(bool with_origin) {
+    std::vector<Op> a;
+    Vec2 orig = with_origin ? Vec2{3, -2} : Vec2{0, 0};
+    auto mk = [&](double m, bool refl, double rot) {
+        Op o = mk_transform(m, refl, rot, orig);
+        if (!with_origin) o.name = fmt("transform(m=%g, refl=%d, rot=", m, refl ? 1 : 0) + num(rot) + ")";
+        return o;
+    };
+    ANGLE_LABELS = true;
+    for (auto& ai : right_angle_set()) {
+        if (with_origin || ai.a != 0) a.push_back(mk(1, false, ai.a));
+        a.push_back(mk(1, true, ai.a));
+        a.push_back(mk(2, true, ai.a));
+    }
+    ANGLE_LABELS = false;
+    a.push_back(mk(2, true, 0.6));
+    a.push_back(mk(-1, false, 0));
+    a.push_back(mk(0.5, false, 0.6));
     return a;
 }
 
@@ -980,6 +1051,8 @@ struct XfSys {
     std::function<Target*()> factory;
     std::function<Model()> model0 = [] { return Model(); };
     JFields static_tags;
+    int depth_quick = 0, depth_thorough = 0;  // 0: the default of the tier
+    bool sweep = false;                       // "ang.*" right-angle sweep
 
     Obj* make() { Obj* o = new Obj(); o->t = factory(); o->m = model0(); return o; }
     void destroy(Obj* o) { delete o->t; delete o; }
@@ -1018,6 +1091,12 @@ struct XfSys {
         }
         if (family == "path" && o.m.has_reflection()) R->count("hist_with_reflection_on_offset_path");
         if (o.m.n_negscale + o.m.n_negmag > 0) R->count("hist_with_negative_scale_or_magnification");
+        const AngleInfo* ai = (p.kind == ROTATE || p.kind == TRANSFORM) ? angle_info(p.angle) : NULL;
+        if (sweep && ai) {
+            R->count(ai->nb == 0 ? "ang_ops_exact_multiple_of_pi_over_2" : ai->nb == 1 ? "ang_ops_one_ulp_off" : "ang_ops_1e-9_off");
+            if (ai->k < 0 && (ai->k & 1)) R->count("ang_ops_negative_odd_multiple");
+            if (ai->k < -4 || ai->k > 4) R->count("ang_ops_beyond_full_turn");
+        }
         Fail f;
         if (!o.t->check(o.m, f)) {
             o.bad = true;
@@ -1036,6 +1115,13 @@ struct XfSys {
                 tags.push_back({"scale_sign", jstr(p.sx < 0 ? "neg" : "pos")});
                 tags.push_back({"uniform", jbool(p.sx == p.sy)});
             }
+            if (p.kind == ROTATE || p.kind == TRANSFORM) {
+                tags.push_back({"angle", jnum(p.angle)});
+                if (ai) {
+                    tags.push_back({"angle_k_pi_over_2", jint(ai->k)});
+                    tags.push_back({"angle_neighbour", jstr(ai->nb == 0 ? "exact" : ai->nb == 1 ? "1ulp" : "1e-9")});
+                }
+            }
             tags.push_back({"depth", jint((int64_t)h.size())});
             tags.push_back({"prior_reflections", jint(o.m.n_mirror + o.m.n_xrefl - ((p.kind == MIRROR || (p.kind == TRANSFORM && p.refl)) ? 1 : 0))});
             std::string diag;
@@ -1048,6 +1134,8 @@ struct XfSys {
             std::string opsig = kind_name(p.kind);
             if (p.kind == TRANSFORM) opsig += std::string(p.refl ? ".xrefl" : "") + (p.mag < 0 ? ".negmag" : p.mag != 1 ? ".mag" : "");
             if (p.kind == SCALE) opsig += std::string(p.sx < 0 ? ".neg" : "") + (p.sx != p.sy ? ".nonuniform" : "");
+            if (ai && (p.kind == ROTATE || p.kind == TRANSFORM))  // right-angle family: sign / parity / exactness are part of the class
+                opsig += std::string(".q") + (ai->k < 0 ? "neg" : ai->k > 0 ? "pos" : "zero") + (ai->k & 1 ? "odd" : "even") + (ai->nb == 0 ? "" : ai->nb == 1 ? "~ulp" : "~1e-9");
             f.cls += ":" + opsig + (diag.empty() ? "" : ":" + diag);
             R->violation(sub, f.cls, tags, jobj({{"object", jstr(object)}, {"history", describe_hist(*this, h)}, {"state", jstr(canon(o))}}), f.detail, "sub=" + sub + " hist=" + hist_str(h));
             if (R->replaying()) fprintf(stderr, "    ** VIOLATION [%s] %s\n", f.cls.c_str(), f.detail.c_str());
@@ -1094,6 +1182,20 @@ static std::vector<std::unique_ptr<XfSys>> build_systems() {
         s = add("xf.robustpath_param.numgrad", "robustpath_param_numgrad", "path", geom_alphabet(false), [] { return (Target*)new RobustTarget(ROBUST_PARAM_NUM, true); });
         s->static_tags = {{"scale_width", jbool(true)}, {"parametric_gradient", jstr("numerical")}};
     }
+    // ---- right-angle sweeps ("all angles": exact k*pi/2 for k=-5..5, their ulp / 1e-9 neighbours),
+    //      every entry point that takes an angle, every element kind; sequences of two for the cheap kinds
+    auto addang = [&](const std::string& object, const std::string& family, std::vector<Op> ops, std::function<Target*()> fac, int dq, int dt) -> XfSys* {
+        XfSys* s = add("ang." + object, object, family, std::move(ops), fac);
+        s->sweep = true; s->depth_quick = dq; s->depth_thorough = dt;
+        return s;
+    };
+    addang("polygon", "polygon", angle_geom_alphabet(), [] { return (Target*)new PolygonTarget(); }, 2, 2);
+    addang("flexpath", "path", angle_geom_alphabet(), [] { return (Target*)new FlexTarget(FLEX_PLAIN, true); }, 2, 2)->static_tags = {{"scale_width", jbool(true)}};
+    addang("label", "placement", angle_placement_alphabet(true), [] { return (Target*)new LabelTarget(); }, 2, 2)->model0 = LabelTarget::model0;
+    addang("reference", "placement", angle_placement_alphabet(true), [] { return (Target*)new ReferenceTarget(); }, 2, 2)->model0 = ReferenceTarget::model0;
+    for (int k = 0; k < 5; k++) addang(std::string("repetition.") + REP_KINDS[k], "repetition", angle_placement_alphabet(false), [k] { return (Target*)new RepetitionTarget(k); }, 2, 2);
+    addang("robustpath", "path", angle_geom_alphabet(), [] { return (Target*)new RobustTarget(FLEX_PLAIN, true); }, 1, 2)->static_tags = {{"scale_width", jbool(true)}};
+    addang("robustpath_param_grad", "path", angle_geom_alphabet(), [] { return (Target*)new RobustTarget(ROBUST_PARAM_GRAD, true); }, 1, 2)->static_tags = {{"scale_width", jbool(true)}, {"parametric_gradient", jstr("callback")}};
     return v;
 }
 
@@ -1126,6 +1228,8 @@ int main(int argc, char** argv) {
         // curved ones (whose region comparison dominates the cost)
         bool curved = s->object.find("robustpath") == 0 || s->object == "flexpath_bend";
         int d = depth + (run.thorough() && !curved ? 1 : 0);
+        if (run.thorough() && s->depth_thorough) d = s->depth_thorough;
+        if (!run.thorough() && s->depth_quick) d = s->depth_quick;
         BfsResult r = bfs(run, *s, s->sub, d, 60);
         (void)r;
     }
